@@ -26,6 +26,7 @@ import (
 	"net/url"
 	"sort"
 	"strconv"
+	"strings"
 
 	"github.com/pilosa/pilosa"
 	"github.com/pilosa/pilosa/encoding/proto"
@@ -963,9 +964,42 @@ func (c *InternalClient) ColumnAttrDiff(ctx context.Context, uri *pilosa.URI, in
 	defer resp.Body.Close()
 
 	// Decode response object.
-	var rsp postIndexAttrDiffResponse
-	if err := json.NewDecoder(resp.Body).Decode(&rsp); err != nil {
+	attrs, err := decodeAttrDiff(resp.Body)
+	if err != nil {
 		return nil, errors.Wrap(err, "decoding")
+	}
+	return attrs, nil
+}
+
+// decodeAttrDiff decodes the body of an attr diff response. Integer attributes
+// must not pass through float64 (they would come back as floats, and rounded
+// beyond 2^53): a number without fraction and exponent is an int64, any other
+// number a float64 (see attrDiffFloat in the handler).
+func decodeAttrDiff(r io.Reader) (map[uint64]map[string]interface{}, error) {
+	var rsp postIndexAttrDiffResponse
+	dec := json.NewDecoder(r)
+	dec.UseNumber()
+	if err := dec.Decode(&rsp); err != nil {
+		return nil, err
+	}
+	for _, m := range rsp.Attrs {
+		for k, v := range m {
+			n, ok := v.(json.Number)
+			if !ok {
+				continue
+			}
+			if !strings.ContainsAny(n.String(), ".eE") {
+				if i, err := n.Int64(); err == nil {
+					m[k] = i
+					continue
+				}
+			}
+			f, err := n.Float64()
+			if err != nil {
+				return nil, errors.Wrapf(err, "attribute %s", k)
+			}
+			m[k] = f
+		}
 	}
 	return rsp.Attrs, nil
 }
@@ -1006,11 +1040,11 @@ func (c *InternalClient) RowAttrDiff(ctx context.Context, uri *pilosa.URI, index
 	defer resp.Body.Close()
 
 	// Decode response object.
-	var rsp postFieldAttrDiffResponse
-	if err := json.NewDecoder(resp.Body).Decode(&rsp); err != nil {
+	attrs, err := decodeAttrDiff(resp.Body)
+	if err != nil {
 		return nil, errors.Wrap(err, "decoding")
 	}
-	return rsp.Attrs, nil
+	return attrs, nil
 }
 
 // SendMessage posts a message synchronously.
